@@ -370,7 +370,8 @@ class TriangularLattice(SquareLattice):
             for s in self._sites:
                 s_r = self.nn_site(s, d='r')  # left is before right in the fermionic order
                 s_b = self.nn_site(s, d='b')  # top is before bottom in the fermionic order
-                bonds_d.append(Bond(s_b, s_r))
+                if s_b is not None and s_r is not None:
+                    bonds_d.append(Bond(s_b, s_r))
             self._bonds_d = bonds_d
         else:
             self._sites = (Site(0, 0), Site(0, 1), Site(0, 2))
